@@ -43,10 +43,26 @@ static inline size_t align_up(size_t value, size_t alignment) {
     return (value + alignment - 1) & ~(alignment - 1);
 }
 
+#ifdef CARQUET_VERIF
+/* Verification hook: CARQUET_VERIF_ARENA_BLOCK=<bytes> in the environment makes arenas grow in
+ * blocks of that size instead of 64 KiB, so that an allocation-failure enumeration reaches the
+ * "arena cannot grow" path of every arena allocation site. Inert when the variable is unset. */
+static size_t carquet_verif_arena_block(void) {
+    const char* e = getenv("CARQUET_VERIF_ARENA_BLOCK");
+    long v = e ? atol(e) : 0;
+    return v > 0 ? (size_t)v : 0;
+}
+#endif
+
 static carquet_arena_block_t* arena_new_block(size_t min_size) {
     size_t block_size = min_size < CARQUET_ARENA_DEFAULT_BLOCK_SIZE
                             ? CARQUET_ARENA_DEFAULT_BLOCK_SIZE
                             : align_up(min_size, CARQUET_ARENA_DEFAULT_BLOCK_SIZE);
+#ifdef CARQUET_VERIF
+    if (carquet_verif_arena_block() > 0) {
+        block_size = align_up(min_size, CARQUET_ARENA_ALIGNMENT);
+    }
+#endif
 
     /* Allocate the header plus the data block.
      * Note: offsetof accounts for the union's alignment padding */
@@ -83,6 +99,11 @@ carquet_status_t carquet_arena_init_size(carquet_arena_t* arena, size_t block_si
     arena->head = NULL;
     arena->current = NULL;
     arena->default_block_size = block_size;
+#ifdef CARQUET_VERIF
+    if (carquet_verif_arena_block() > 0) {
+        arena->default_block_size = block_size = carquet_verif_arena_block();
+    }
+#endif
     arena->total_allocated = 0;
     arena->total_capacity = 0;
 
